@@ -120,6 +120,24 @@ def p_dtype_specific(x):
     return x * 3 + 2
 
 
+@onnx_function
+def f_blend(a, b, w):
+    return (a + b) / w
+
+
+def p_blend(a, b, w):
+    return (a + b) / w
+
+
+@onnx_function
+def f_scale_pow(a, k, s):
+    return jnp.power(jnp.abs(a) + 1.0, k) * s
+
+
+def p_scale_pow(a, k, s):
+    return jnp.power(jnp.abs(a) + 1.0, k) * s
+
+
 # ---- callable classes with state -----------------------------------------------
 
 
@@ -250,6 +268,13 @@ def programs(dec: bool) -> dict[str, dict]:
     P["two_args_permuted_operands"] = {"fn": lambda a, b: T2(a, b) - T2(b, a), "shapes": [(3, 4), (3, 4)]}
     P["two_args_first_shape_differs_last_equal"] = {"fn": lambda a, b, c: T2(a, c).sum(0) + T2(b, c).sum(0), "shapes": [(3, 4), (5, 4), (4,)]}
     P["two_args_first_dtype_differs_last_equal"] = {"fn": lambda i, a, c: T2(a, c).sum(0) + T2(i, c.astype(jnp.int32)).sum(0).astype(a.dtype) if False else T2(a, c).sum(0) + T2(a * 2.0, c).sum(0), "shapes": [(3, 4), (3, 4), (4,)]}
+    BL = late("f_blend", "p_blend")
+    SP = late("f_scale_pow", "p_scale_pow")
+    P["constant_positional_arg_differs"] = {"fn": lambda a, b: BL(a, b, 2.0) + BL(a * 2.0, b, 4.0), "shapes": [(3, 4), (3, 4)]}
+    P["constant_positional_arg_differs_reversed"] = {"fn": lambda a, b: BL(a, b, 4.0) - BL(a * 2.0, b, 2.0), "shapes": [(3, 4), (3, 4)]}
+    P["constant_then_traced_positional_arg"] = {"fn": lambda a, b: BL(a, b, 2.0) + BL(a, b, jnp.sum(b) * 0.0 + 3.0), "shapes": [(3, 4), (3, 4)]}
+    P["constant_array_positional_arg_differs"] = {"fn": lambda a, b: BL(a, b, jnp.full((4,), 2.0)) + BL(a, b, jnp.array([1.0, 2.0, 4.0, 8.0])), "shapes": [(3, 4), (3, 4)]}
+    P["two_constant_positional_args"] = {"fn": lambda a: SP(a, 2.0, 1.0) + SP(a, 1.0, 2.0) + SP(a, 0.5, 0.5), "shapes": [(3, 4)]}
     P["unused_input"] = {"fn": lambda a, b: UN(a, b) * 2.0 + UN(b, a), "shapes": [(3, 4), (3, 4)]}
     P["nested_three_deep"] = {"fn": lambda x: TOP(x) + LEAF(x), "shapes": X}
     P["call_order_a"] = {"fn": lambda x: MID(LEAF(x)) + S(x), "shapes": X}
